@@ -90,3 +90,96 @@ func c08RawArguments(c *core.Check) {
 		r.Anchor("loads of the Arguments field in css/validation and html/tree")
 	}
 }
+
+// c08UnrecognisedLength: getLength returns the zero Dimension for a token that is not a length.  A validator that
+// converts that result to a value without asking IsNone() accepts any token as 0: an invalid declaration is then kept
+// and overrides an earlier valid one (`tab-size: 4; tab-size: foo` gave 0).
+func c08UnrecognisedLength(c *core.Check) {
+	p := c.Prog
+	r := c.Rule("R14", "an unrecognised token is not a length of zero: in css/validation every result of getLength that is turned into a property value with ToValue() is first tested with IsNone(), and converted only where it is not none", 10)
+	gl := p.Fn("css/validation", "getLength")
+	if gl == nil {
+		r.Anchor("css/validation.getLength")
+		return
+	}
+	n := 0
+	for _, fn := range p.FuncsOfPkg("css/validation") {
+		if fn.Blocks == nil {
+			continue
+		}
+		fn := fn
+		same := func(a, b ssa.Value) bool {
+			if a == b {
+				return true
+			}
+			// loads of the same local
+			la, ok1 := a.(*ssa.UnOp)
+			lb, ok2 := b.(*ssa.UnOp)
+			return ok1 && ok2 && la.X == lb.X
+		}
+		fromGetLength := func(v ssa.Value) bool {
+			return core.DerivesFrom(v, func(x ssa.Value) bool {
+				call, ok := x.(*ssa.Call)
+				return ok && call.Call.StaticCallee() == gl
+			})
+		}
+		core.Instrs(fn, func(in ssa.Instruction) {
+			call, ok := in.(*ssa.Call)
+			if !ok || call.Call.StaticCallee() == nil || call.Call.StaticCallee().Name() != "ToValue" || len(call.Call.Args) != 1 {
+				return
+			}
+			v := call.Call.Args[0]
+			if !fromGetLength(v) {
+				return
+			}
+			n++
+			guarded := false
+			for _, b := range fn.Blocks {
+				ifi, isIf := b.Instrs[len(b.Instrs)-1].(*ssa.If)
+				if !isIf {
+					continue
+				}
+				cond := ifi.Cond
+				neg := false
+				if u, ok := cond.(*ssa.UnOp); ok && u.Op == token.NOT {
+					cond, neg = u.X, true
+				}
+				ic, ok := cond.(*ssa.Call)
+				if !ok || ic.Call.StaticCallee() == nil || ic.Call.StaticCallee().Name() != "IsNone" || len(ic.Call.Args) != 1 || !same(ic.Call.Args[0], v) {
+					continue
+				}
+				succ := b.Succs[1] // IsNone() false
+				if neg {
+					succ = b.Succs[0]
+				}
+				if len(succ.Preds) == 1 && (succ == call.Block() || succ.Dominates(call.Block())) {
+					guarded = true
+				}
+			}
+			// or the converted value itself is asked (v := x.ToValue(); if v.IsNone() { … })
+			if !guarded {
+				core.Instrs(fn, func(in2 ssa.Instruction) {
+					ic, ok := in2.(*ssa.Call)
+					if !ok || ic.Call.StaticCallee() == nil || ic.Call.StaticCallee().Name() != "IsNone" || len(ic.Call.Args) != 1 {
+						return
+					}
+					a := ic.Call.Args[0]
+					if a == ssa.Value(call) {
+						guarded = true
+					}
+					if ld, ok := a.(*ssa.UnOp); ok {
+						for _, st := range core.StoresTo(ld.X) {
+							if st == ssa.Value(call) {
+								guarded = true
+							}
+						}
+					}
+				})
+			}
+			r.Cond(guarded, core.FuncName(fn)+" | "+p.StmtTextAt(fn, call.Pos()), p.Pos(call.Pos()), "converted only where IsNone() is false", "the result of getLength becomes the value of the property without an IsNone() test: a token that is not a length is accepted as 0 and the invalid declaration overrides the valid one before it")
+		})
+	}
+	if n == 0 {
+		r.Anchor("css/validation: getLength(…).ToValue()")
+	}
+}
